@@ -25,11 +25,16 @@ def demo_cmd(src, root, out):
     """build command: the demo's own first-comment command if it has one with $ROOT, else a default"""
     txt = open(src, errors="replace").read(3000)
     san = "-fsanitize=address,undefined" in txt
-    return ("gcc -std=gnu11 -D_GNU_SOURCE -w %s -I%s/include -I%s/src %s %s/src/*.c -lm -lpthread -o %s"
+    m = re.search(r"gcc -std=(\w+)", txt)
+    std = "-std=c99 -DGP_PEDANTIC" if m and m.group(1) == "c99" else "-std=gnu11"      # the configuration the demo names first
+    return ("gcc " + std + " -D_GNU_SOURCE -w %s -I%s/include -I%s/src %s %s/src/*.c -lm -lpthread -o %s"
             % ("-fsanitize=address,undefined -fno-sanitize-recover=all -g" if san else "-O1", root, root, src, root, out))
 
 
 def run_demo(src, root, tag):
+    if src.endswith(".sh"):                      # a script that builds what it needs itself: sh demo.sh <root>
+        rc, log = sh(["sh", src, root], cwd="/tmp", timeout=3600)
+        return rc, log[-1500:]
     out = "/tmp/seed_demo_%s_%d" % (tag, os.getpid())
     rc, log = sh(demo_cmd(src, root, out))
     if rc != 0:
@@ -44,6 +49,7 @@ def run_demo(src, root, tag):
 def confirm(pid, k, src, wt):
     patch = os.path.join(src, "patch%s.diff" % k)
     demo = os.path.join(src, "demo%s.c" % k)
+    if not os.path.exists(demo): demo = os.path.join(src, "demo%s.sh" % k)
     meta = json.load(open(os.path.join(src, "meta%s.json" % k)))
     rep = {"property": pid, "patch_lines": sum(1 for l in open(patch) if l[:1] in "+-" and l[:3] not in ("+++", "---"))}
     sh("git checkout -- . && rm -rf build", cwd=wt)
@@ -61,6 +67,7 @@ def confirm(pid, k, src, wt):
         rep["suite_with_patch"] = {"exit": rc, "passed_lines": npass, "failed_lines": nfail}
         if rc != 0 or nfail or npass < 158:
             return False, "test suite does not pass with the patch (exit %d, %d PASSED, %d FAILED)" % (rc, npass, nfail)
+        sh("rm -rf build", cwd=wt)          # a stale generator binary from the clean run must not serve the patched tree
         rc1, log1 = run_demo(demo, wt, pid + "p")
         rep["demo_patched"] = {"exit": rc1, "tail": log1[-400:]}
         if rc1 in (0, None):
@@ -70,7 +77,7 @@ def confirm(pid, k, src, wt):
     d = os.path.join(SEEDED, "%s-%s" % (pid, k))
     os.makedirs(d, exist_ok=True)
     shutil.copy(patch, os.path.join(d, "patch.diff"))
-    shutil.copy(demo, os.path.join(d, "demo.c"))
+    shutil.copy(demo, os.path.join(d, "demo" + os.path.splitext(demo)[1]))
     json.dump({"property": pid, "summary": meta.get("summary"), "needs": meta.get("needs"),
                "author_ran": meta.get("ran"), "confirmed": rep,
                "confirmed_how": "tools/seedtool.py confirm: git apply --check on a clean scratch worktree; demo built "
